@@ -158,6 +158,10 @@ theorem gb_outLe (extended : Bool) (c : Nat) : OutLe 4 (gbEncodeChar extended c)
 theorem iso2022JpTwoByte_outLe (c : Nat) : OutLe 2 (iso2022JpEncodeTwoByte c) := by
   unfold iso2022JpEncodeTwoByte; outle_tac
 
+/-- the UTF-8 encoder's step writes exactly what its (exact) space check asks for -/
+theorem utf8_out_le_need (s : Unit) (c : Nat) : (utf8EFam.step s c).out.length ≤ utf8EFam.need s c :=
+  Nat.le_refl _
+
 theorem stateless_out_le (enc : Nat → Option (List Nat)) (n : Nat) (h : ∀ c, OutLe n (enc c)) (s : Unit) (c : Nat) :
     (statelessStep enc s c).out.length ≤ n := by
   unfold statelessStep
@@ -225,16 +229,16 @@ theorem estep_out_le_need (v : Gen.Variant) (s : (efamOfVariant v).σ) (c : Nat)
   cases v with
   | iso2022Jp => exact isoEncStep_out_le s c
   | singleByte t a b l => exact stateless_out_le _ 1 (singleByte_outLe _ a b l) s c
-  | utf8 => exact stateless_out_le _ 4 utf8_outLe s c
+  | utf8 => exact utf8_out_le_need s c
   | gbk => exact stateless_out_le _ 4 (gb_outLe false) s c
   | gb18030 => exact stateless_out_le _ 4 (gb_outLe true) s c
   | big5 => exact stateless_out_le _ 2 big5_outLe s c
   | eucJp => exact stateless_out_le _ 2 eucJp_outLe s c
   | shiftJis => exact stateless_out_le _ 2 shiftJis_outLe s c
   | eucKr => exact stateless_out_le _ 2 eucKr_outLe s c
-  | replacement => exact stateless_out_le _ 4 utf8_outLe s c
-  | utf16Be => exact stateless_out_le _ 4 utf8_outLe s c
-  | utf16Le => exact stateless_out_le _ 4 utf8_outLe s c
+  | replacement => exact utf8_out_le_need s c
+  | utf16Be => exact utf8_out_le_need s c
+  | utf16Le => exact utf8_out_le_need s c
   | userDefined => exact stateless_out_le _ 1 userDefined_outLe s c
 
 theorem eeof_out_le_need (v : Gen.Variant) (s : (efamOfVariant v).σ) :
